@@ -574,8 +574,53 @@ def check_c12(tier, seed):
         rd.cleanup()
 
 
-CHECKS = {"C01": check_c01, "C03": check_c03, "C05": check_c05, "C06": check_c06, "C07": check_c07, "C08": check_c08,
-          "C12": check_c12}
+# ----------------------------------------------------------------------------------------------
+# C02: crash images
+# ----------------------------------------------------------------------------------------------
+def generated_commit_order():
+    import re
+    src = open(os.path.join(vlib.COQ, "gen", "Consts.v")).read()
+    m = re.search(r"Definition commit_order : list string := \[(.*?)\]\.", src)
+    return [x.strip().strip('"') for x in m.group(1).split(";")] if m else []
+
+
+def check_c02(tier, seed):
+    import crash, re
+    rep = Report("C02", tier, seed, "proof")
+    b = vlib.build(release=False)
+    gate = vlib.proof_gate("C02", b)
+    rd = RunDir()
+    failed = 0
+    try:
+        if b.cargo_ok and b.extract_ok:
+            failed = crash.crash_check(rep, rd, tier, seed)
+            # correspondence of the write order: strace shapes vs the generated commit_order
+            order = generated_commit_order()
+            rx = "".join({"grow": "G?", "data": "(d\\*)?", "header": "H", "sync": "S", "publish": ""}.get(x, "") for x in order)
+            badshapes = [sh for sh in rep.cov.get("io_shapes", {}) if not re.fullmatch(rx, sh)]
+            rep.cov["generated_commit_order"] = order
+            if badshapes and not failed:
+                failed += 1
+                rep.violation("traced I/O shape %s does not match the order the translator read from write_data (%s)" % (badshapes, order),
+                              dict(kind="strace-shape", property="C02", shapes=rep.cov.get("io_shapes"), order=order), no_input=True)
+        rep.cov["rule"] = ("histories of small / large / mixed transactions (bucket deletes, overflow values, page reuse, file growth from a "
+                           "4-page file); strace records the real lseek/write/fsync/fallocate sequence of every commit; images = real "
+                           "pre-image + real written bytes: every prefix (kill); for the writes issued since the last completed sync every "
+                           "subset when few, sampled otherwise, some torn at 512-byte sectors, the header page torn at 8-byte words (power "
+                           "loss); each image opened by the library (dump + check) and by the Gallina model; must equal the state before or "
+                           "after the commit; the complete image must be the state after; distinct by (history, commit, crash label)")
+        rep.sample(dict(crash="power seg 0 subset [3] = only the header page write of the commit survives", expect="state before or after the commit"))
+        rep.cov["traces_validated_against_impl"] = rep.cov["evaluations"]
+        fill_proof_cov(rep, gate, TRUSTED_COMMON + ["strace 6.1 as the observer of the commit's system calls",
+                                                    "premise NoTornCollision (a torn header record is not a valid header): evaluated on every torn image"])
+        gate_or_search(rep, "C02", b, gate, failed > 0)
+        return rep.finish()
+    finally:
+        rd.cleanup()
+
+
+CHECKS = {"C01": check_c01, "C02": check_c02, "C03": check_c03, "C05": check_c05, "C06": check_c06, "C07": check_c07,
+          "C08": check_c08, "C12": check_c12}
 
 
 def main(argv):
